@@ -1388,9 +1388,17 @@ func (pc *pipelinedConn) RoundTrip(ctx context.Context, data []byte) (*dnsmessag
 		return nil, fmt.Errorf("failed to allocate ID: %w", err)
 	}
 
-	// Get response slot from pool
+	// Get response slot from pool. It may only go back to the pool once no other
+	// goroutine can still hold it: readLoop and closeWithErr take a slot out of
+	// pending first and write to it afterwards, so a slot they have taken is
+	// reusable only after this call has received what they sent.
 	slot := newResponseSlot()
-	defer putResponseSlot(slot)
+	slotReleased := false
+	defer func() {
+		if slotReleased {
+			putResponseSlot(slot)
+		}
+	}()
 
 	// Store the pending request
 	if !pc.pending[id].CompareAndSwap(nil, slot) {
@@ -1400,7 +1408,9 @@ func (pc *pipelinedConn) RoundTrip(ctx context.Context, data []byte) (*dnsmessag
 	pc.pendingCount.Add(1)
 
 	defer func() {
-		pc.pending[id].CompareAndSwap(slot, nil)
+		if pc.pending[id].CompareAndSwap(slot, nil) {
+			slotReleased = true // nobody took it: this call was its only holder
+		}
 		pc.idAlloc.Release(id)
 		pc.pendingCount.Add(-1)
 	}()
@@ -1427,6 +1437,9 @@ func (pc *pipelinedConn) RoundTrip(ctx context.Context, data []byte) (*dnsmessag
 	}
 
 	msg, err := slot.get(ctx)
+	if err == nil || errors.Is(err, io.ErrUnexpectedEOF) {
+		slotReleased = true // the holder's send was received: it is done with the slot
+	}
 	if err != nil {
 		if errors.Is(err, context.DeadlineExceeded) || errors.Is(err, context.Canceled) {
 			// Avoid stale-response cross-delivery after ID reuse.
